@@ -5416,8 +5416,9 @@ class DecRule:
             ldr_row, ldr_col = self.size, self.model.rc_model.vars[-1].last
             ldr_coeff = np.array([[np.nan] * ldr_col] * ldr_row)
             rand_ind = rvar.get_ind()
-            row_ind, col_ind = np.where(self.depend == 1)
-            ldr_coeff[row_ind, col_ind] = self.var_coeff.get()
+            if self.depend is not None and self.var_coeff is not None:
+                row_ind, col_ind = np.where(self.depend == 1)
+                ldr_coeff[row_ind, col_ind] = self.var_coeff.get()
 
             rv_shape = rvar.to_affine().shape
             return ldr_coeff[:, rand_ind].reshape(self.shape + rv_shape)
